@@ -37,7 +37,7 @@ struct Content {
     bool locks = false; bool analogGroupEmpty = false; int valueSet = 0; int gapWord = 10;
     // hooks used by the C12 pattern files
     std::function<uint32_t(int, int, int)> ptFn, anFn; std::vector<GParam> customParams; std::vector<uint32_t> eventTimes; bool haveRateBits = false; uint32_t rateBits = 0;
-    int lastOverride = -1; bool blankLabel = false; bool reservedNonZero = false; bool longNames = false; int keyLabel = 0, firstKeyBlock = 0; bool noDataStart = false;
+    int lastOverride = -1; bool blankLabel = false; bool reservedNonZero = false; bool longNames = false; int keyLabel = 0, firstKeyBlock = 0; bool noDataStart = false; int padBlocks = 0;
 };
 struct Layout {
     int zeros = 0; bool zeroPrologue = false; int paramBlock = 2; std::string order = "default"; std::string ids = "dense"; bool lastOffsetZero = false; bool lowerNames = false;
@@ -132,6 +132,7 @@ inline std::string encode(const Content& c, const Layout& l) {
     }
     p8(ps, 0);                                  // terminator: zero name length
     while (ps.size() % 512) p8(ps, 0);
+    for (int k = 0; k < c.padBlocks; ++k) ps += std::string(512, '\0');   // spare zero block(s) that still belong to the parameter section
     int nBlocks = (int)(ps.size() / 512); ps[2] = (char)nBlocks;
     int dataBlock = l.paramBlock + nBlocks;     // 1-based
     if (dataStartAt) { ps[dataStartAt] = (char)(dataBlock & 0xff); ps[dataStartAt + 1] = (char)((dataBlock >> 8) & 0xff); }
@@ -183,6 +184,7 @@ inline std::vector<Dim> dims(bool thorough) {
     d.push_back({"agroup", {"full", "empty"}});
     d.push_back({"reserved", {"zero", "nonzero"}});
     d.push_back({"datastart", {"present", "absent"}});
+    d.push_back({"padblocks", {"0", "1", "3"}});
     return d;
 }
 using Choice = std::map<std::string, std::string>;
@@ -198,6 +200,7 @@ inline bool apply(const Choice& ch, Content& c, Layout& l) {   // returns false 
     l.lastOffsetZero = get("lastoff", "ptr") == "zero";
     c.reservedNonZero = get("reserved", "zero") == "nonzero";
     c.noDataStart = get("datastart", "present") == "absent";
+    c.padBlocks = atoi(get("padblocks", "0").c_str());
     c.longNames = get("names", "std") == "long"; if (c.longNames && c.extra == "none") return false;
     if (get("hdrwords", "std") == "odd") { c.gapWord = 65535; c.keyLabel = 12345; c.firstKeyBlock = 7; c.scaleBits = 0xBE800000u; }
     c.analogGroupEmpty = get("agroup", "full") == "empty"; if (c.analogGroupEmpty) { if (ch.count("chans") && ch.at("chans") != "0") return false; c.nChans = 0; if (ch.count("alabels")) return false; }
